@@ -1,7 +1,7 @@
 /-
 C03 — every encoded packet ends with the correct SMBus PEC.
 -/
-import Mctp.Lemmas.Encode
+import Mctp.Lemmas.EncodeApi
 import Mctp.Lemmas.Decode
 import Mctp.Spec.Api
 namespace Mctp
@@ -15,7 +15,11 @@ theorem crc8_eq_spec (xs : Bytes) : crc8 xs = Spec.crc xs := Mctp.crc8_eq_spec x
 theorem pec (c : Ctx) (dst : B) (e : Enc) (buf buf' : Bytes) (n : Nat)
     (h : encode c dst e buf = .ok (buf', n)) :
     Spec.pecOk (buf'.take n) = true ∧ Spec.crc (buf'.take n) = 0#8 := by
-  sorry
+  obtain ⟨t, hd, d, -, -, -, -, hp⟩ := encode_ok_take h
+  rw [hp]
+  constructor
+  · simp [Spec.pecOk, Mctp.crc8_eq_spec]
+  · rw [← Mctp.crc8_eq_spec, crc_append_self]; rfl
 
 /-- the standard check value of CRC-8/SMBUS ("123456789" ↦ 0xF4) — a test, not a proof -/
 example : Spec.crc [0x31#8, 0x32#8, 0x33#8, 0x34#8, 0x35#8, 0x36#8, 0x37#8, 0x38#8, 0x39#8] = 0xF4#8 := by
